@@ -165,8 +165,8 @@ fn cli_case(ctx: &Ctx, ch: &mut Ch, scratch: &crate::cli::Scratch) -> Outcome {
     let (Some(k), RefType::Ok(_)) = (k, verdict) else { return Ok(()) };
     let (want, _) = typed::ref_eval(&k, 1_000_000);
     let expected = match &want {
-        RefEval::Value(RefValue::Int(n)) => format!("`{n}`\n"),
-        RefEval::Value(RefValue::Bool(b)) => format!("`{b}`\n"),
+        RefEval::Value(RefValue::Int(n)) => n.to_string(),
+        RefEval::Value(RefValue::Bool(b)) => b.to_string(),
         RefEval::DivisionByZero => String::new(),
         _ => return Ok(()),
     };
@@ -180,13 +180,15 @@ fn cli_case(ctx: &Ctx, ch: &mut Ch, scratch: &crate::cli::Scratch) -> Outcome {
     let err = String::from_utf8_lossy(&run.stderr).into_owned();
     match &want {
         RefEval::DivisionByZero => {
-            if run.status != 1 || !out.is_empty() || !err.contains("is stuck!") {
+            if run.status != 1 || !out.is_empty() || err.trim().is_empty() {
                 return Err(Failure::new(format!("the semantics prescribes a division by zero; `gram run` exited {} with stdout {out:?} stderr {err:?}", run.status), p.text.clone()));
             }
             ctx.class("cli: `gram run` stops at the division by zero");
         }
         _ => {
-            if run.status != 0 || out != expected {
+            // The printed value, without the quoting the CLI puts around code.
+            let shown = out.trim().trim_matches('`').to_owned();
+            if run.status != 0 || shown != expected {
                 return Err(Failure::new(format!("the semantics prescribes {expected:?}; `gram run` exited {} and printed {out:?} (stderr {err:?})", run.status), p.text.clone()));
             }
             ctx.class("cli: `gram run` prints the prescribed literal");
